@@ -4,6 +4,7 @@ import (
 	"flag"
 	"fmt"
 	"os"
+	"path/filepath"
 	"sort"
 	"strings"
 	"time"
@@ -84,14 +85,28 @@ func cmdFunc(args []string) {
 			continue
 		}
 		t2 := time.Now()
-		var obls []*vc.Obligation
+		var obls, covers []*vc.Obligation
 		for _, o := range res.Obls {
 			if o.Kind != "cover" {
 				obls = append(obls, o)
+			} else {
+				covers = append(covers, o)
 			}
 		}
 		res.Obls = obls
 		vc.Discharge(res.Obls, cfg)
+		// vacuity probes: "false" must not be provable at loop heads and exits
+		ccfg := cfg
+		ccfg.Timeout = 2 * time.Second
+		ccfg.NoSecondWave = true
+		ccfg.WorkDir = filepath.Join(*work, "cover")
+		vc.Discharge(covers, ccfg)
+		for _, c := range covers {
+			if c.Status == "discharged" && c.Solver != "trivial" {
+				fmt.Printf("   VACUOUS    %-8s %6.2fs %s  [%s] false is provable here: contradictory precondition, invariant or assumption\n", c.Solver, c.Seconds, c.Name, c.Pos)
+				bad++
+			}
+		}
 		nd := 0
 		for _, o := range res.Obls {
 			if o.Status == "discharged" {
